@@ -61,7 +61,9 @@ def _impl_unobjid(vs, as_str):
 
 def _impl_unobjid_block(vs, as_str):
     from pydl.photoop.photoobj import unwrap_objid
-    if as_str:
+    if as_str == 'bytes':
+        a = np.array([str(v).encode('ascii') for v in vs])      # dtype 'S': what a FITS table column of decimal IDs holds
+    elif as_str:
         a = np.array([str(v) for v in vs])
     else:
         a = np.array([v - 2**64 if v >= 2**63 else v for v in vs], dtype=np.int64)
@@ -109,7 +111,7 @@ def _impl_unspec(vs, as_str):
 
 def _impl_unspec_block(vs, as_str):
     from pydl.pydlutils.sdss import unwrap_specobjid
-    a = np.array([str(v) for v in vs]) if as_str else np.array(vs, dtype=np.uint64)
+    a = (np.array([str(v).encode('ascii') for v in vs]) if as_str == 'bytes' else np.array([str(v) for v in vs])) if as_str else np.array(vs, dtype=np.uint64)
     u = unwrap_specobjid(a)
     ui = unwrap_specobjid(a, run2d_integer=True, specLineIndex=True)
     u2 = unwrap_specobjid(a)
@@ -254,6 +256,27 @@ def _regenerate(ctx):
     core.gen_obligations(ctx, 'PydlVerif.Gen.C06Consts', path, ths)
 
 
+def _empty(ctx):
+    """the elementwise map on no elements: a zero-length array of IDs / field tuples gives a zero-length answer (objids_is_map
+    at n = 0), not an exception"""
+    from pydl.pydlutils.sdss import sdss_objid, sdss_specobjid, unwrap_specobjid
+    from pydl.photoop.photoobj import unwrap_objid
+    e = np.array([], dtype=np.int64)
+    calls = {'sdss_objid': lambda: sdss_objid(e, e, e, e), 'sdss_objid(all fields)': lambda: sdss_objid(e, e, e, e, rerun=e, skyversion=e, firstfield=e),
+             'sdss_specobjid': lambda: sdss_specobjid(e, e, e, e), 'unwrap_objid': lambda: unwrap_objid(e),
+             'unwrap_specobjid': lambda: unwrap_specobjid(np.array([], dtype=np.uint64))}
+    for name, f in calls.items():
+        c = {'stream': 'empty', 'call': name}
+        ctx.seen(c)
+        ctx.count('empty:' + name)
+        try:
+            r = f()
+            if len(r) != 0:
+                ctx.violate('empty:' + name, '%s of zero-length arrays returns %d elements' % (name, len(r)), c)
+        except Exception as ex:
+            ctx.violate('empty:' + name + ':exception', '%s of zero-length arrays raises %s: %s' % (name, type(ex).__name__, str(ex)[:100]), c)
+
+
 def run(ctx):
     _regenerate(ctx)
     core.audit(ctx, LEAN_MODULES, THEOREMS)
@@ -261,6 +284,7 @@ def run(ctx):
     _unobjid(ctx)
     _spec(ctx)
     _unspec(ctx)
+    _empty(ctx)
 
 
 def _objid(ctx, tuples=None):
@@ -315,13 +339,13 @@ def _unobjid(ctx):
     for i in range(0, len(vs), 500):
         blk = vs[i:i + 500]
         m = core.driver([{'p': 'C06', 'op': 'unobjid', 'v': blk}])[0]
-        for as_str in (False, True):
+        for as_str in (False, True, 'bytes'):
             b2 = [v for v in blk if v < 2**63] if as_str else blk
             mm = m if not as_str else [x for x, v in zip(m, blk) if v < 2**63]
             impl = _impl_unobjid(b2, as_str)
             c = {'stream': 'unobjid', 'as_str': as_str, 'v': b2}
             ctx.seen(c)
-            ctx.count('unobjid:' + ('str' if as_str else 'int64'), len(b2))
+            ctx.count('unobjid:' + ('bytes' if as_str == 'bytes' else 'str' if as_str else 'int64'), len(b2))
             if impl != mm:
                 k = next(i for i in range(len(b2)) if impl[i] != mm[i])
                 ctx.disagree('unobjid', {'stream': 'unobjid', 'as_str': as_str, 'v': [b2[k]]}, impl[k], mm[k])
@@ -437,11 +461,11 @@ def _unspec(ctx):
     for i in range(0, len(vs), 500):
         blk = vs[i:i + 500]
         m = core.driver([{'p': 'C06', 'op': 'unspec', 'v': blk}])[0]
-        for as_str in (False, True):
+        for as_str in (False, True, 'bytes'):
             impl = _impl_unspec(blk, as_str)
             c = {'stream': 'unspec', 'as_str': as_str, 'v': blk}
             ctx.seen(c)
-            ctx.count('unspec:' + ('str' if as_str else 'uint64'), len(blk))
+            ctx.count('unspec:' + ('bytes' if as_str == 'bytes' else 'str' if as_str else 'uint64'), len(blk))
             dis = False
             for k, (v, got, mm) in enumerate(zip(blk, impl, m)):
                 one = {'stream': 'unspec', 'as_str': as_str, 'v': [v]}
@@ -460,7 +484,9 @@ def replay(ctx, case):
     _regenerate(ctx)
     core.audit(ctx, LEAN_MODULES, THEOREMS)
     s = case.get('stream')
-    if s == 'objid':
+    if s == 'empty':
+        _empty(ctx)
+    elif s == 'objid':
         _objid(ctx, [(case.get('kind', 'replay'), t) for t in case['f']])
     else:
         run(ctx)
